@@ -193,7 +193,8 @@ func TestVerif_C03_h2cut(t *testing.T) {
 	url := "http://" + peer.ln.Addr().String() + "/x"
 	n := verifh.N(250, 2500)
 	reached := map[string]int{}
-	for i := 0; i < n; i++ {
+	failures := 0
+	for i := 0; i < n && failures < 12; i++ {
 		body := verifh.RandBytes(r, 1+r.Intn(300), "abcdefghijklmnopqrstuvwxyz")
 		sc := c03H2Scenario{body: body, declared: len(body), send: len(body), frames: 1 + r.Intn(4), ending: "end-stream", complete: true}
 		if r.Intn(3) == 0 {
@@ -281,6 +282,9 @@ func TestVerif_C03_h2cut(t *testing.T) {
 			}
 			ok, why = false, "second request on the same client failed: "+msg
 		}
+		if !ok {
+			failures++
+		}
 		reached[sc.name]++
 		s.Count("scenario:" + sc.name)
 		human := fmt.Sprintf("h2 %s declared=%d body=%d sent=%d extra=%d frames=%d stream-caller=%v -> %s (%s) second-ok=%v dials=%d",
@@ -291,6 +295,9 @@ func TestVerif_C03_h2cut(t *testing.T) {
 		s.Observe(fmt.Sprintf("h2cut/%d/%s/%d/%d/%d", i, sc.name, sc.declared, sc.send, sc.frames), ok, "", !sc.complete, human, why)
 	}
 	s.Finish()
+	if failures >= 12 {
+		return
+	}
 	for _, need := range []string{"ok", "fail", "complete", "rst", "goaway", "tcp-close", "midframe", "short-end-stream", "overlong", "close-before-headers"} {
 		if reached[need] == 0 {
 			t.Errorf("C03/h2cut never reached %q", need)
